@@ -1,7 +1,8 @@
 import json
 M=[]
-def m(id,props,file,find,replace,rule,cc,note,edits=None):
+def m(id,props,file,find,replace,rule,cc,note,edits=None,all=False):
     d={"id":id,"props":props,"file":file,"find":find,"replace":replace,"rule":rule,"construct_contains":cc,"note":note}
+    if all: d["all"]=True
     if edits: d["edits"]=edits
     M.append(d)
 m("bt2-put-hit-flush-not-restaged",["C04","C05"],"batch.go",
@@ -73,5 +74,37 @@ m("hp2-next-drops-exhausted-cursor",["C10","C14"],"index/sharded_index.go",
   "\tif item.valid() {\n\t\theap.Push(it.heap, item)\n\t} else {\n\t\tit.oldItems = append(it.oldItems, item)\n\t}\n",
   "\tif item.valid() {\n\t\theap.Push(it.heap, item)\n\t}\n",
   "HP2","cursor-conserved:(*index.IndexIterator).Next","Next forgets the cursor it exhausts: Rewind no longer visits that shard")
+
+m("lk13-remap-under-read-lock",["C09","C20"],"fio/mmap.go",
+  "\tm.mu.Lock()\n\tdefer m.mu.Unlock()\n\tif offset >= m.virtualSize {\n\t\treturn 0, io.EOF\n\t}\n\tif err := m.remap(offset, len(b)); err != nil {",
+  "\tm.mu.RLock()\n\tdefer m.mu.RUnlock()\n\tif offset >= m.virtualSize {\n\t\treturn 0, io.EOF\n\t}\n\tif err := m.remap(offset, len(b)); err != nil {",
+  "LK13","locked-state:(*fio.MMap).Read","the slow path of Read re-maps while holding only the read lock")
+m("lk13-reset-without-lock",["C09","C20"],"fio/mmap.go",
+  "func (m *MMap) ResetFileSize() error {\n\tm.mu.Lock()\n\tdefer m.mu.Unlock()\n\treturn m.resetFileSize()",
+  "func (m *MMap) ResetFileSize() error {\n\treturn m.resetFileSize()",
+  "LK13","locked-state:(*fio.MMap).ResetFileSize","Backup's size reset unmaps without excluding lock-free readers")
+m("lk13-mmap-unlocked",["C09","C20"],"fio/mmap.go",
+  "\tm.mu.Lock()\n\tdefer m.mu.Unlock()\n","",
+  "LK13","locked-state:(*fio.MMap).Read","pre-fix behaviour (F17): MMap without any lock",all=True,
+  edits=[{"file":"fio/mmap.go","find":"\tm.mu.RLock()\n\tdefer m.mu.RUnlock()\n","replace":"","all":True},
+         {"file":"fio/mmap.go","find":"\t\tm.mu.RUnlock()\n","replace":"","all":True},
+         {"file":"fio/mmap.go","find":"\tm.mu.RUnlock()\n","replace":"","all":True},
+         {"file":"fio/mmap.go","find":"\tm.mu.RLock()\n","replace":"","all":True}])
+
+m("cd8-cursor-left-at-block-size",["C01","C11"],"datafile/data_file.go",
+  "\tnextID += nextSize / blockSize\n\tnextSize %= blockSize\n",
+  "\tif nextSize > blockSize {\n\t\tnextID += nextSize / blockSize\n\t\tnextSize %= blockSize\n\t}\n",
+  "CD8","cursor-below-block-size","a record ending exactly on a block boundary leaves the cursor at offset 32768 (seeded C01-G)")
+m("bt4-tombstone-not-indexed",["C05","C04"],"batch.go",
+  "\tb.addPendingRecord(key, logRecord)\n\tb.cachedDataSize += size\n\treturn nil\n}",
+  "\tb.staged = append(b.staged, logRecord)\n\tb.cachedDataSize += size\n\treturn nil\n}",
+  "BT4","paired-append:(*xixi_kv.Batch).Delete","tombstone staged without a lookup entry: Batch.Get serves the pre-batch value (seeded C05-H)")
+m("bt4-reset-leaves-lookup",["C05"],"batch.go",
+  "\tb.staged = b.staged[:0]\n\tb.stageIndex = map[uint64][]int{}\n",
+  "\tb.staged = b.staged[:0]\n",
+  "BT4","paired-reset:(*xixi_kv.Batch).flushStaged","mid-batch flush keeps stale lookup entries")
+m("cf2-active-file-chosen-by-size-limit",["C02","C14"],"db.go",
+  "\t\tif i == len(fileIds)-1 {\n","\t\tif i == len(fileIds)-1 && dataFile.Size() < db.options.DataFileSize {\n",
+  "CF2","open-ignores-size-limit","a full newest file is not made active: the next session appends to low-numbered old files (seeded C02-H)")
 json.dump(M,open('/verif/mutants/c_round3.json','w'),indent=1,ensure_ascii=False)
 print(len(M))
